@@ -1,6 +1,8 @@
 (* C11 — column and table slices keep their structural invariants.  Statements only; proofs in
    CsFacts.v and SliceFacts.v.  The payload type V of a caller-built slice is the identity of a
    value array (a handle): "the very same array" is equality of payloads. *)
+From Sbdf Require Import ImpCall Gen.Prog ImpFacts ImpFacts7 ImpFactsFrame.
+From Coq Require Import List.
 From Sbdf Require Import Slice CsFacts SliceFacts MdFacts.
 
 (* an addition is accepted exactly when the row counts agree and the name is new *)
@@ -46,3 +48,13 @@ Theorem C11_read_count_mismatch : forall swp cols ncols subset tail, wf_ts cols 
   ts_read swp None ncols subset (enc_ts swp cols ++ tail) = Err SBDF_ERROR_COLUMN_COUNT_MISMATCH.
 Proof. exact ts_read_count_mismatch. Qed.
 Print Assumptions C11_read_count_mismatch.
+
+(* the growth function of the property and column arrays from the source: sbdf_calculate_array_capacity
+   (translated on every run) returns the model's array_capacity - the smallest member of
+   0, 1, 2, 4, 7, 11, 17, ... that is >= size - for every size up to 715 827 882 (beyond that
+   cap * 3 would overflow an int: the interpreter would report it, the theorem excludes it) *)
+Theorem C11_source_capacity : forall size, int_min <= size <= 715827882 ->
+  exists f0, forall f, (f0 <= f)%nat -> exists fin,
+    callE prog_env f prog_sbdf_calculate_array_capacity [VInt size] [] 0 = OReturn (VInt (array_capacity size)) fin.
+Proof. exact capacity_source. Qed.
+Print Assumptions C11_source_capacity.
